@@ -287,6 +287,7 @@ def _gen_case(rng, tier, g):
             else 'int',
             'extra_col': rng.random() < 0.5 and form != 'convertnumbers',
             'flaky': rng.random() < 0.2,
+            'suffix': rng.random() < 0.3,
             'long': [rng.random() < 0.5 for _ in range(3)]
             if rng.random() < 0.3 else None,
             'short': [rng.random() < 0.5 for _ in range(3)]
@@ -400,7 +401,7 @@ def _build(e, case, fl, policy, mode, tbl):
         from collections import OrderedDict
         m = OrderedDict([('id', 'id'), ('v', '{v} + 1'), ('w', 'w')] +
                         ([('x', 'x')] if case['extra_col'] else []))
-        return e.fieldmap(tbl, m, **evkw)
+        return _fieldmap(e, case, tbl, m, evkw)
     if form == 'fieldmapdict':
         # a translation dictionary: looking an unhashable cell up in it
         # fails (TypeError), which is a failing mapping like any other
@@ -408,30 +409,42 @@ def _build(e, case, fl, policy, mode, tbl):
         m = OrderedDict([('id', 'id'), ('v', ('v', dict(_TRANSLATE))),
                          ('w', 'w')] + ([('x', 'x')] if case['extra_col']
                                         else []))
-        return e.fieldmap(tbl, m, **evkw)
+        return _fieldmap(e, case, tbl, m, evkw)
     if form == 'fieldmap':
         from collections import OrderedDict
         m = OrderedDict([('id', 'id'), ('V', ('v', fl.conv('v'))),
                          ('c', 'w')])
-        return e.fieldmap(tbl, m, **evkw)
+        return _fieldmap(e, case, tbl, m, evkw)
     if form == 'fieldmap2':
         from collections import OrderedDict
         m = OrderedDict([('V', fl.recfun('v')), ('id', 'id'),
                          ('W', ('w', fl.conv('w')))])
-        return e.fieldmap(tbl, m, **evkw)
+        return _fieldmap(e, case, tbl, m, evkw)
     if form == 'fieldmap3':
         # two fields that can fail, with further fields after them
         from collections import OrderedDict
         m = OrderedDict([('V', fl.recfun('v')), ('W', ('w', fl.conv('w'))),
                          ('id', 'id'), ('tail', lambda rec: 'tail'),
                          ('v0', 'v')])
-        return e.fieldmap(tbl, m, **evkw)
+        return _fieldmap(e, case, tbl, m, evkw)
     if form == 'rowmap':
         return e.rowmap(tbl, fl.rowmapper(), header=['id', 'm', 'n'], **kw)
     if form == 'rowmapmany':
         return e.rowmapmany(tbl, fl.rowgen(case['j']), header=['id', 'i'],
                             **kw)
     raise ValueError(form)
+
+
+def _fieldmap(e, case, tbl, m, evkw):
+    if case.get('suffix'):
+        # the documented suffix notation: a view without mappings, each one
+        # assigned afterwards (the view must start out with none - and must
+        # not share them with any other view)
+        view = e.fieldmap(tbl, **evkw)
+        for k, mm in m.items():
+            view[k] = mm
+        return view
+    return e.fieldmap(tbl, m, **evkw)
 
 
 def _both(fl):
@@ -714,6 +727,16 @@ def run_case(case):
             try:
                 _run_view(_build(e, dcase, dfl, False, 'arg', _table(case)),
                           1)
+            except Exception:
+                pass
+        if case.get('suffix') and form.startswith('fieldmap'):
+            # another view configured through the suffix notation, with a
+            # field of its own: views do not share their mappings
+            try:
+                d = e.fieldmap(_table(case))
+                d['decoy_field'] = 'id'
+                _run_view(d, 1)
+                del d
             except Exception:
                 pass
         for k in range(len(points) + 1):
